@@ -108,6 +108,8 @@ def gen_scn(r, k, forced=None):
         c["eb"] = {"raw": [r.choice([0.0, 0.5, 1.0, 1.0, 2.0, 4.0, 8.0]) for _ in range(nt)], "equil": r.choice(f.get("equil", [0, 0, 3, 6, 20]))}
         if not any(c["eb"]["raw"]):
             c["eb"]["raw"][0] = 1.0
+        if r.random() < 0.4:        # targetDistMinVal: a fraction of the maximum, or 0 = the smallest positive value
+            c["eb"]["minval"] = r.choice([0.0, 0.25, 0.001, 0.5])
     c["pmf"] = use_grids and not c["eb"] and r.random() < f.get("p_pmf", 0.2)
     c["pmf_keep"] = c["pmf"] and r.random() < 0.4
     c["gfreq_explicit"] = use_grids and f.get("gfreq_explicit", r.random() < 0.4)
@@ -404,6 +406,8 @@ def config_text(c, geom=None, rebin=False, par=None):
         L.append("  stepZeroData on")
     if c.get("eb"):
         L += ["  ebMeta on", "  targetDistFile %s" % target_file_name(c), "  ebMetaEquilSteps %d" % c["eb"]["equil"]]
+        if c["eb"].get("minval") is not None:
+            L.append("  targetDistMinVal %r" % c["eb"]["minval"])
     if c.get("tsf", 1) > 1:
         L.append("  timeStepFactor %d" % c["tsf"])
     L += ["  " + t for t in c.get("meta_extra", [])]
@@ -440,8 +444,14 @@ def target_processed(c):
     """the target distribution as ebMeta uses it: small values raised to 1e-6 of the maximum, normalised to integral
     1, multiplied by the effective volume exp(entropy) (init_ebmeta_params)"""
     d = list(c["eb"]["raw"])
-    thr = max(d) * (1 / 1000000.0)
-    d = [max(t, thr) for t in d]
+    mv = c["eb"].get("minval")
+    if mv == 0.0:
+        # targetDistMinVal 0: zeros are raised to the smallest positive value
+        thr = min(t for t in d if t > 0.0)
+        d = [max(t, thr) for t in d] if min(d) == 0.0 else d
+    else:
+        thr = max(d) * (1 / 1000000.0 if mv is None else mv)
+        d = [max(t, thr) for t in d]
     vol = 1.0
     for v in c["vars"]:
         vol *= v["w"]
@@ -1263,6 +1273,10 @@ def witnesses():
         _cfg("w_ebmeta_wt", [_var()], [[3.5], [3.5], [3.5], [-0.25], [3.25]], wt=True,
              eb={"raw": [1.0, 2.0, 4.0, 8.0, 8.0, 4.0, 2.0, 1.0], "equil": 0}),
         # ebMeta with the default ebMetaEquilSteps 0 and a hill at step 0 (stepZeroData)
+        _cfg("w_ebmeta_minval0", [_var()], [[3.5], [3.5], [0.5], [7.5], [2.5]],
+             eb={"raw": [0.0, 2.0, 4.0, 8.0, 8.0, 4.0, 0.5, 0.0], "equil": 0, "minval": 0.0}),
+        _cfg("w_ebmeta_minval", [_var()], [[3.5], [3.5], [0.5], [7.5], [2.5]],
+             eb={"raw": [0.0, 2.0, 4.0, 8.0, 8.0, 4.0, 0.5, 0.0], "equil": 0, "minval": 0.25}),
         _cfg("w_ebmeta_step0", [_var()], [[3.5], [3.5], [2.5]], stepzero=True,
              eb={"raw": [1.0, 2.0, 4.0, 8.0, 8.0, 4.0, 2.0, 1.0], "equil": 0}),
         # ebMeta: the ramp runs on the absolute step: a job started at step 5, and one restarted inside / after the ramp
